@@ -134,23 +134,27 @@ static void case_cell(H3Index h) {
                 dense = 1;
             }
             if (hit[f]) continue;
-            /* is the face's region within 1e-9 of the cell at all? */
-            ld closest = 1e9L;
+            /* How far does the cell reach into that face's region?  pen = max over boundary points of (distance to the nearest
+             * other face centre - distance to this face's centre): > 0 strictly inside the region.  The substrate lattice makes
+             * real penetrations at least a fraction of a cell wide (>= 1e-8 rad at res 15); a cell that only touches the region
+             * along its boundary (a vertex or an edge on the icosahedron edge) has pen = 0 up to rounding, and its *interior*
+             * does not intersect the face.  On the unchanged tree no reported face ever needed this branch (0 of 2.4e6 cells). */
+            ld pen = -1e9L;
             for (int i = 0; i < A.n; i++)
                 for (int t = 0; t <= 50; t++) {
                     V3 p = v3_norm(v3_add(v3_scale(A.v[i], 1 - t / 50.0L), v3_scale(A.v[(i + 1) % A.n], t / 50.0L)));
-                    ld best = 1e9L;
+                    ld other = 1e9L;
                     for (int g = 0; g < 20; g++) {
                         ld d = v3_len(v3_sub(p, FC[g]));
-                        if (d < best) best = d;
+                        if (g != f && d < other) other = d;
                     }
-                    ld ex = v3_len(v3_sub(p, FC[f])) - best;
-                    if (ex < closest) closest = ex;
+                    ld adv = other - v3_len(v3_sub(p, FC[f]));
+                    if (adv > pen) pen = adv;
                 }
-            if (closest < 1e-9L) {
-                n_ambig++;
+            if (pen > 1e-12L) {
+                n_ambig++; /* a sliver thinner than the sampling, or within the rounding band: not judged */
             } else
-                vf_violation("extra-face", "getIcosahedronFaces", key ^ vf_mix((uint64_t)f + 100), "", "%016" PRIx64 " reports face %d but no interior sample (200x200 per fan triangle) lies on it and its boundary stays %.3Lg away from that face", h, f, closest);
+                vf_violation("extra-face", "getIcosahedronFaces", key ^ vf_mix((uint64_t)f + 100), "", "%016" PRIx64 " reports face %d but no interior sample (200x200 per fan triangle) lies on it and its boundary reaches at most %.3Lg rad into that face's region (it touches the face along its boundary at most; the interior does not intersect it)", h, f, pen);
         }
     }
     if (nhit > 1 || pent) vf_distinct(key);
@@ -193,7 +197,7 @@ static void run(void) {
     vf_add("cells", n_cells);
     vf_add("cells.multi_face", n_multi);
     vf_add("cells.grid_sampled", n_grid);
-    vf_add("ambiguous.face_within_1e-9", n_ambig);
+    vf_add("ambiguous.reported_face_not_sampled", n_ambig);
 }
 static void replay(const char *spec) {
     uint64_t h;
